@@ -514,7 +514,7 @@ def generate(rng, tier):
                           fp=bool(opts['for_proxy'] and d.get('host') and d.get('port')),
                           meta=dict(framing=d['framing'], body=d['body'], nheaders=len(d['headers']))))
     # the arguments of build(): disable_headers / for_proxy / host, alone and combined, on well-formed requests
-    for i in range(70 if quick else 2400):
+    for i in range(48 if quick else 2400):
         d = gen_wire(rng, 1)
         cases.append(dict(kind='rebuild', ptype=1, raw=d['raw'], opts=gen_build_args(rng, d, i), wf=False, dom=True, bargs=True,
                           meta=dict(framing=d['framing'], body=d['body'], nheaders=len(d['headers']), target=d['target'],
@@ -607,6 +607,19 @@ def run_impl(case):
         except Exception as e:
             return obs_err(e, 0)
         out = dict(first=H.obs_parser(p))
+        # the same wire message delivered in two pieces at a few cuts inside the body / the last lines (round-4 seed
+        # C15-r4-1: a decoder object that is falsy while its body is empty gets replaced between reads): "parse back"
+        # must not depend on the delivery.  Segmentation independence proper is C03's theorem; here the decoded message
+        # the rebuild starts from is observed under it.
+        raw_ = case['raw']
+        he = raw_.find(b'\r\n\r\n')
+        if he >= 0 and len(raw_) > he + 4:
+            cuts = sorted({min(len(raw_) - 1, he + 4 + d) for d in (0, 1, 2, 3, 5)} | {len(raw_) - 2, len(raw_) - 1, len(raw_) - 4})
+            pw = []
+            for c_ in cuts:
+                if 0 < c_ < len(raw_):
+                    pw.append([c_, H.run_parser(case['ptype'], [raw_[:c_], raw_[c_:]])])
+            out['piecewise'] = pw
         try:
             o = case['opts']
             if case['ptype'] == 1:
@@ -776,8 +789,11 @@ def oracle_build_args(case, out):
         return 'build(%r) raised %s on a well-formed request' % (o, out['exc'])
     q = out['second']
     if p['chunked'] and b'transfer-encoding' in D:
-        # outside the domain (te_guard; C15_build_disable_te_refuted): the chunk-encoded bytes are announced by Content-Length
+        # te_guard / C15_build_disable_te_refuted: the chunk-encoded bytes are announced by Content-Length.  Recorded defect
+        # (known_findings.json C15-disable-te-chunked): reported when the re-parsed body differs, never silently skipped
         STATS['buildargs_disable_te_on_chunked_outside_domain'] += 1
+        if 'err' in q or q.get('body') != p.get('body') or q['state'] != 6:
+            return TE_FINDING
         return None
     STATS['buildargs_checked'] += 1
     if 'err' in q or q['state'] != 6 or q['buffer']:
@@ -885,6 +901,16 @@ def oracle(case, out):
         if not bodyless and h['body'] != want:
             return 'h11 reads another body'
         return None
+    if k == 'rebuild' and 'first' in out and out['first'].get('state') == 6 and case.get('wf', True):
+        for c_, o2 in out.get('piecewise', []):
+            f1 = out['first']
+            if 'err' in o2:
+                return 'message parses in one piece but raises %s when delivered in two pieces cut at %d' % (o2.get('exc'), c_)
+            bad = [x for x in ('state', 'method', 'code', 'headers', 'body', 'chunked', 'buffer') if x in f1 and o2.get(x) != f1.get(x)]
+            if bad:
+                return ('message parses to another %s when delivered in two pieces cut at %d (%r vs %r in one piece)'
+                        % (bad[0], c_, o2.get(bad[0]) if bad[0] != 'body' else (o2.get('body') or b'')[:40],
+                           f1.get(bad[0]) if bad[0] != 'body' else (f1.get('body') or b'')[:40]))
     if k == 'rebuild' and case.get('bargs'):
         return oracle_build_args(case, out)
     if k == 'rebuild':
@@ -1036,7 +1062,13 @@ def nontrivial(case, out):
     return bool(case['body'])
 
 
+TE_FINDING = ('build(disable_headers) with transfer-encoding disabled on a chunked request: the rebuilt message announces the '
+              'chunk-ENCODED bytes with Content-Length, its body is not the client\'s body')
+
+
 def classify(case, out, failure):
+    if failure == TE_FINDING:
+        return 'C15-disable-te-chunked'
     return None
 
 
